@@ -80,6 +80,8 @@ def run(ctx):
     # index rows (incl. contract address -> inscription id) are stamped with the block they belong to, so that a reorg
     # removes them together with the transaction they point at
     T.clause_stamps(R, F, CG)
+    # the cached chain tip never outlives the blocks it points at (heights stay contiguous after clear_caches / reorg)
+    T.clause_derived_caches_coherent(R, F)
     # block gas used / log index / processing time start from zero in every block
     import enginerules as ER
     ER.clause_block_info_reset(R, F, owners=("clear_caches", "finalise_block"))
